@@ -158,4 +158,72 @@ theorem quietLines_blockEquivA (al bl : List ALine) (rs : List Range) (hok : inc
       rw [← h1, ← h2]; exact hbe
     exact (show AclEqv al bl from ⟨al, hbe'⟩).blockEquivA
 
+/-- The identity script is quiet: no hypothesis on the planner's answer is left. -/
+theorem identityOn_quiet (al bl : List ALine) (rs : List Range) (h : identityOn al bl rs = true) :
+    quietLines al bl rs = true := by
+  unfold identityOn at h
+  unfold quietLines
+  rcases Bool.or_eq_true_iff.mp h with h1 | h1
+  · rw [h1]; rfl
+  · simp only [Bool.and_eq_true] at h1
+    obtain ⟨hne, hm⟩ := h1
+    rw [Bool.or_eq_true_iff]
+    right
+    simp only [Bool.and_eq_true]
+    refine ⟨hne, ?_⟩
+    cases hc : pairCells al bl rs with
+    | none => rw [hc] at hm; cases hm
+    | some M =>
+      rw [hc] at hm
+      simp only at hm ⊢
+      have hall : ∀ c ∈ M, c.old = true ∧ c.new = true := by
+        intro c hcm
+        have := List.all_eq_true.mp hm c hcm
+        simpa using this
+      have hplan := planIOS_all_both M hall
+      -- `M` is not empty: it carries the lines of the non-empty device list
+      have hMne : M ≠ [] := by
+        intro hM
+        have ho := (NA.Acl.cellsOf_sound _ _ rs M hc).1
+        rw [hM] at ho
+        have : al = [] := by
+          cases al with
+          | nil => rfl
+          | cons x xs => simp [NA.Acl.olds] at ho
+        rw [this] at hne; simp at hne
+      rw [Bool.and_eq_true]
+      refine ⟨?_, by rw [hplan]; rfl⟩
+      cases M with
+      | nil => exact absurd rfl hMne
+      | cons c M' =>
+        obtain ⟨k1, k2⟩ := hall c (List.mem_cons_self ..)
+        simp [k1, k2]
+
+/-- … and it exists only for lists that are equal line by line (under the numeric encoding of the pair). -/
+theorem identityOn_equal (al bl : List ALine) (rs : List Range) (h : identityOn al bl rs = true) :
+    al.map (encLine ((al ++ bl).map (·.text)) ((al ++ bl).map (·.nolog))) =
+      bl.map (encLine ((al ++ bl).map (·.text)) ((al ++ bl).map (·.nolog))) := by
+  unfold identityOn at h
+  rcases Bool.or_eq_true_iff.mp h with h1 | h1
+  · simp only [Bool.and_eq_true, List.isEmpty_iff] at h1
+    rw [h1.1, h1.2]
+  · simp only [Bool.and_eq_true] at h1
+    obtain ⟨_, hm⟩ := h1
+    cases hc : pairCells al bl rs with
+    | none => rw [hc] at hm; cases hm
+    | some M =>
+      rw [hc] at hm
+      obtain ⟨ho, hn⟩ := NA.Acl.cellsOf_sound _ _ rs M hc
+      have hall : ∀ c ∈ M, c.old = true ∧ c.new = true := by
+        intro c hcm
+        have := List.all_eq_true.mp hm c hcm
+        simpa using this
+      have e1 : NA.Acl.olds M = M.map (·.line) := by
+        unfold NA.Acl.olds
+        rw [List.filter_eq_self.mpr (fun c hcm => (hall c hcm).1)]
+      have e2 : NA.Acl.news M = M.map (·.line) := by
+        unfold NA.Acl.news
+        rw [List.filter_eq_self.mpr (fun c hcm => (hall c hcm).2)]
+      rw [← ho, ← hn, e1, e2]
+
 end NA.F2
